@@ -474,6 +474,10 @@ def main(argv=None):
   print("check %s tier=%s seed=%d tree=%s workers=%d"
         % (a.prop, a.tier, a.seed, REPO, NPROC))
   only = set(a.only.split(",")) if a.only else None
+  if only and not os.environ.get("VERIF_OUT"):
+    # a partial (debugging) run must never replace the evidence of a full run
+    global OUT
+    OUT = os.path.join(tempfile.gettempdir(), "verif-scratch-out")
   try:
     for kname, kind in module.KINDS.items():
       kind.name = kname
